@@ -111,6 +111,9 @@ func historyQueryBuilder(field string, options HistoryQueryOptions) (string, str
 	// Only select the txindex. Only works with entry_hash field
 	if options.UseTxIndex && field == "entry_hash" {
 		where += fmt.Sprintf(" AND tx.tx_index = %d", options.TxIndex)
+		// the count (which the API also derives the next offset from) must be
+		// taken over the same rows as the data
+		whereCount += fmt.Sprintf(" AND tx.tx_index = %d", options.TxIndex)
 	}
 
 	if options.Asset != "" {
